@@ -302,6 +302,55 @@ func C16(tier string) int {
 			evals++
 			distinct["property-value|"+via+"|"+w.Atom] = true
 		}
+		// one identifier used for two different elements - an edge and a vertex of one graph, a vertex in each of
+		// two graphs - written in that order, then the FIRST is deleted: the second must stay exactly as
+		// written in everything observable (label listings and label scans included: a missing entry is charged)
+		for _, a := range atoms {
+			for _, kind := range []string{"edge-then-vertex", "two-graphs"} {
+				env := c16Baseline(via)
+				var w1, w2 c16Write
+				var op gmodel.Op
+				if kind == "edge-then-vertex" {
+					w1, w2 = c16WriteFor("edge-gid", a), c16WriteFor("vertex-gid", a)
+					op = gmodel.Op{Kind: "DelEdge", G: "g1", ID: a}
+				} else {
+					w1, w2 = c16WriteFor("vertex-gid", a), c16WriteFor("vertex-gid", a)
+					w2.Graph = "g2"
+					op = gmodel.Op{Kind: "DelVertex", G: "g1", ID: a}
+				}
+				if via == "server" && a == "" {
+					continue
+				}
+				ws := []c16Write{w1, w2}
+				if !env.check(run, ws[:1], w1, "shared-id/first") || !env.check(run, ws, w2, "shared-id/second") {
+					continue
+				}
+				before := env.w
+				_, pan := gmodel.ApplyDB(env.db, op)
+				env.w = before.Apply(op).Worlds[0]
+				u := env.universe(ws...)
+				obs, opan := gmodel.ObserveDB(env.db, u)
+				evals += 3
+				if pan != "" || opan != "" {
+					run.Report(vf.Violation{Sig: fmt.Sprintf("shared-id|%s|%s|panic", kind, via), Detail: fmt.Sprintf("atom %s, %s then %s: panic %s%s", atomName(a), kind, op, pan, opan), Replay: nil})
+					continue
+				}
+				seen := map[string]bool{}
+				for _, m := range gmodel.Diff(env.w.Observe(u), obs) {
+					dir := listDirection(m.Want, m.Got)
+					if (m.Comp == "label-scan" || m.Comp == "vlabels" || m.Comp == "elabels") && dir == "extra" {
+						continue // C03's listed finding (the label index never shrinks); a missing entry is charged
+					}
+					if seen[m.Comp+dir] {
+						continue
+					}
+					seen[m.Comp+dir] = true
+					run.Report(vf.Violation{Sig: fmt.Sprintf("shared-id|%s|%s|%s|%s", kind, via, m.Comp, dir),
+						Detail: fmt.Sprintf("identifier %s used for %s, written in that order, then %s: %s %s expected %s, read back %s", atomName(a), kind, op, m.Comp, m.Item, m.Want, m.Got),
+						Replay: map[string]any{"via": via, "kind": kind, "atom": a, "delete": op.String()}})
+				}
+			}
+		}
 		// ordered pairs at the identifier positions, then optionally delete the first
 		pairPos := []string{"graph-name", "vertex-gid", "vertex-label", "edge-gid", "edge-label"}
 		if thorough {
